@@ -47,5 +47,8 @@ func S2KparamsToItertions(s2kparams string) (int64, error) {
 		return int64(s2kParamsZero), errors.New("invalid s2kparams, cannot decode string to bytes")
 	}
 	i = binary.BigEndian.Uint32(b)
+	if i == 0 {
+		return int64(s2kParamsZero), nil
+	}
 	return int64(i), nil
 }
